@@ -28,6 +28,11 @@ type c18Case struct {
 	EqualTimes bool         `json:"equal_creation_times"`
 	Nodes      []string     `json:"node_labels"` // "", "a", "b"
 	Order      []int        `json:"reconcile_order"`
+	// Before / BeforeOrder: an earlier population of the same objects (same names and creation times) that was fully
+	// reconciled in BeforeOrder before the user edited it into Settings (reference added, selector repaired, a setting
+	// deleted - reference "gone" in Settings); the statuses written then are still stored when Order starts
+	Before      []c18Setting `json:"before,omitempty"`
+	BeforeOrder []int        `json:"before_order,omitempty"`
 }
 
 func c18Selector(kind string) metav1.LabelSelector {
@@ -62,6 +67,9 @@ func c18Matches(kind, nodeLabel string) (matches, usable bool) {
 func c18Build(c c18Case) []client.Object {
 	var objs []client.Object
 	for i, s := range c.Settings {
+		if s.Ref == "gone" {
+			continue
+		}
 		st := &v1.ExtendedDaemonsetSetting{ObjectMeta: metav1.ObjectMeta{Namespace: "ns", Name: fmt.Sprintf("set%d", i+1)},
 			Spec: v1.ExtendedDaemonsetSettingSpec{NodeSelector: c18Selector(s.Sel),
 				Containers: []v1.ExtendedDaemonsetSettingContainerSpec{{Name: "main", Resources: corev1.ResourceRequirements{Requests: corev1.ResourceList{corev1.ResourceCPU: qty(fmt.Sprintf("%d00m", i+1))}}}}}}
@@ -122,8 +130,47 @@ func c18Eval(t *testing.T, run *h.Run, c c18Case, withPods bool) {
 				}
 			}
 		}
+		if c.Before != nil {
+			// first the earlier population, reconciled once each; then the edit (specs replaced / object deleted, statuses kept)
+			cb := c
+			cb.Settings, cb.Before = c.Before, nil
+			objsB := append(c18Build(cb), eds, rs)
+			stB := w.NewState(0, objsB...)
+			stB.Now = 2 * time.Hour
+			lb := w.NewLive(stB, w.Config{})
+			for _, i := range c.BeforeOrder {
+				lb.ReconcileSetting("ns", fmt.Sprintf("set%d", i+1))
+				run.Count("setting_reconciles", 1)
+			}
+			mid := lb.Capture(stB)
+			var edited []client.Object
+			for _, o := range mid.Objs {
+				if cur, ok := o.O.(*v1.ExtendedDaemonsetSetting); ok && cur.Namespace == "ns" {
+					var i int
+					fmt.Sscanf(cur.Name, "set%d", &i)
+					if c.Settings[i-1].Ref == "gone" {
+						continue
+					}
+					for _, nb := range objs {
+						if n, ok := nb.(*v1.ExtendedDaemonsetSetting); ok && n.Namespace == "ns" && n.Name == cur.Name {
+							cp := cur.DeepCopy()
+							cp.Spec = *n.Spec.DeepCopy()
+							edited = append(edited, cp)
+						}
+					}
+					continue
+				}
+				edited = append(edited, o.O)
+			}
+			st = w.NewState(0, edited...)
+			st.Now = 2 * time.Hour
+			run.Count("antecedent:C18/history", 1)
+		}
 		l := w.NewLive(st, w.Config{})
 		for _, i := range c.Order {
+			if c.Settings[i].Ref == "gone" {
+				continue
+			}
 			rr := l.ReconcileSetting("ns", fmt.Sprintf("set%d", i+1))
 			run.Count("setting_reconciles", 1)
 			if rr.Panic != nil {
@@ -132,7 +179,7 @@ func c18Eval(t *testing.T, run *h.Run, c c18Case, withPods bool) {
 			}
 		}
 		post := l.Capture(st)
-		if len(c.Settings) == 2 && len(c.Order) == 2 {
+		if len(c.Settings) == 2 && len(c.Order) == 2 && c.Before == nil {
 			c18ReadFaults(t, run, c, st)
 		}
 		status := map[int]*v1.ExtendedDaemonsetSetting{}
@@ -144,10 +191,16 @@ func c18Eval(t *testing.T, run *h.Run, c c18Case, withPods bool) {
 			}
 		}
 		wellFormed := func(i int) bool {
+			if c.Settings[i].Ref == "gone" {
+				return false
+			}
 			_, usable := c18Matches(c.Settings[i].Sel, "")
 			return usable && (c.Settings[i].Ref == "foo" || c.Settings[i].Ref == "other")
 		}
 		overlap := func(i, j int) bool {
+			if c.Settings[i].Ref == "gone" || c.Settings[j].Ref == "gone" {
+				return false
+			}
 			for _, nl := range c.Nodes {
 				mi, ui := c18Matches(c.Settings[i].Sel, nl)
 				mj, uj := c18Matches(c.Settings[j].Sel, nl)
@@ -296,9 +349,9 @@ func TestC18(t *testing.T) {
 			for _, eq := range []bool{false, true} {
 				for _, np := range nodePops {
 					for _, ord := range permutations(len(cur)) {
-						cases = append(cases, c18Case{append([]c18Setting{}, cur...), eq, np, ord})
+						cases = append(cases, c18Case{Settings: append([]c18Setting{}, cur...), EqualTimes: eq, Nodes: np, Order: ord})
 						if len(cur) == 2 { // twice around
-							cases = append(cases, c18Case{append([]c18Setting{}, cur...), eq, np, append(append([]int{}, ord...), ord...)})
+							cases = append(cases, c18Case{Settings: append([]c18Setting{}, cur...), EqualTimes: eq, Nodes: np, Order: append(append([]int{}, ord...), ord...)})
 						}
 					}
 				}
@@ -323,13 +376,51 @@ func TestC18(t *testing.T) {
 				for _, c := range small {
 					for _, d := range small {
 						for _, ord := range permutations(4) {
-							cases = append(cases, c18Case{[]c18Setting{a, b, c, d}, false, []string{"", "a", "b"}, ord})
+							cases = append(cases, c18Case{Settings: []c18Setting{a, b, c, d}, Nodes: []string{"", "a", "b"}, Order: ord})
 						}
 					}
 				}
 			}
 		}
 	}
+	// histories: a population that was reconciled once, then edited (a missing reference added, an unusable selector
+	// repaired, a setting deleted), then every setting reconciled once more in every order. Overlapping pairs and triples
+	// over a reduced alphabet; whatever statuses the first pass left behind, the second pass must settle the conflicts.
+	hsel := []string{"a", "ab", "exists"}
+	var hist [][]c18Setting
+	for _, a := range hsel {
+		for _, b := range hsel {
+			hist = append(hist, []c18Setting{{a, "foo"}, {b, "foo"}})
+			for _, c3 := range hsel[:2] {
+				hist = append(hist, []c18Setting{{a, "foo"}, {b, "foo"}, {c3, "foo"}})
+			}
+		}
+	}
+	nHist := 0
+	for _, final := range hist {
+		for i := range final {
+			var befores [][]c18Setting
+			var finals [][]c18Setting
+			b1 := append([]c18Setting{}, final...)
+			b1[i].Ref = "nil"
+			befores, finals = append(befores, b1), append(finals, final)
+			b2 := append([]c18Setting{}, final...)
+			b2[i].Sel = "bad"
+			befores, finals = append(befores, b2), append(finals, final)
+			f3 := append([]c18Setting{}, final...)
+			f3[i].Ref = "gone"
+			befores, finals = append(befores, final), append(finals, f3)
+			for k := range befores {
+				for _, o1 := range permutations(len(final)) {
+					for _, o2 := range permutations(len(final)) {
+						cases = append(cases, c18Case{Settings: finals[k], Nodes: []string{"", "a", "b"}, Order: o2, Before: befores[k], BeforeOrder: o1})
+						nHist++
+					}
+				}
+			}
+		}
+	}
+	run.Count("history_cases", int64(nHist))
 	parallel(len(cases), func(i int) {
 		c := cases[i]
 		first := true
